@@ -121,6 +121,57 @@ impl Family for ManyLargeChunks {
     }
 }
 
+/// long data for parameters far from the front of a wide statement (indices 15..17, 255..257, the
+/// last one) - a parameter index is 16 bits on the wire - interleaved, next to inline values and
+/// NULLs, followed by an execution without long data
+struct WideLongData;
+impl Family for WideLongData {
+    fn name(&self) -> String {
+        "long-data-for-late-parameters-of-a-wide-statement".into()
+    }
+    fn len(&self) -> u64 {
+        4
+    }
+    fn run(&self, idx: u64, st: &mut Stats) -> Result<(), Violation> {
+        st.nontrivial += 1;
+        st.bump("wide_long_data");
+        let n = [18usize, 300, 300, 1000][idx as usize];
+        let targets: Vec<u16> = match idx {
+            0 => vec![0, 15, 16, 17],
+            1 => vec![0, 15, 16, 17, 255, 256, 257, 299],
+            2 => vec![299, 256, 255, 16, 256, 299, 255],
+            _ => vec![999, 512, 511, 256, 255, 65, 64, 63, 1],
+        };
+        let mut payloads = vec![with_byte(COM_STMT_PREPARE, format!("id=1 p={}", n).as_bytes())];
+        for (k, t) in targets.iter().enumerate() {
+            payloads.push(cmd_long(1, *t, format!("<p{}#{}>", t, k).as_bytes()));
+        }
+        let block = |with_long: bool| {
+            let ps: Vec<ExecParam> = (0..n)
+                .map(|i| {
+                    let long = with_long && targets.contains(&(i as u16));
+                    ExecParam {
+                        ty: 0xfd,
+                        unsigned: false,
+                        wire: if long || i % 7 == 3 { None } else { Some({ let mut v = Vec::new(); put_lenenc_str(&mut v, format!("i{}", i).as_bytes()); v }) },
+                        long,
+                    }
+                })
+                .collect();
+            exec_block(&ps, true)
+        };
+        payloads.push(cmd_execute(1, 0, 1, &block(true)));
+        payloads.push(cmd_execute(1, 0, 1, &block(false)));
+        run_payloads(&payloads, &[], st).map(|_| ()).map_err(|mut v| {
+            v.msg = format!("statement of {} parameters, long data for parameters {:?}: {}", n, targets, v.msg);
+            v
+        })
+    }
+    fn describe(&self, idx: u64) -> J {
+        json!({"case": idx})
+    }
+}
+
 pub fn build(quick: bool) -> Check {
     let alpha = alphabet();
     let prefix = vec![Action::Prepare { id: 1, n: 2, ok: true }, Action::Prepare { id: 2, n: 2, ok: true }];
@@ -161,18 +212,19 @@ pub fn build(quick: bool) -> Check {
     }));
     families.push(Box::new(BigChunk));
     families.push(Box::new(ManyLargeChunks));
+    families.push(Box::new(WideLongData));
     families.push(Box::new(Histories { label: "long-data".into(), hists: scale_long_data() }));
     families.push(Box::new(Histories { label: "long-data-counter-wraps".into(), hists: wraps_long_data(quick) }));
     families.push(Box::new(super::soak::Soak { label: "chunks-and-silence", lens: super::soak::lens(quick), mixes: vec![super::soak::Mix::Chunks, super::soak::Mix::Silent, super::soak::Mix::Even], opts: super::soak::opts_all(), big: vec![] }));
     Check {
         id: "C17",
         level: "model_checking",
-        rule: format!("two prepared statements of 2 parameters; histories over {} actions: LONG_DATA(id 1|2, parameter 0|1|out of range, chunk \"\"|\"xy\"|\"z\"; 2000- and 12000-byte chunks), EXECUTE(bind LONG | VAR_STRING | MYSQL_TYPE_NULL | reuse; first parameter NULL), CLOSE, re-PREPARE; the client omits inline bytes for parameters with pending long data. Full tree to depth {} (thorough: depth 6 over the alphabet without the large chunks) plus BFS over model states (pending data capped at 4 bytes per parameter) with two witnesses; every interleaving of <= 7 (thorough: 9) actions over (chunk for parameter 0|1 of statement 1|2, EXECUTE 1|2) and of <= 6 (7) with CLOSE 1 / PREPARE 1 added; plus a chunk of 2*(2^24-1)+5 bytes; five chunks of 14 MiB for one parameter (70 MiB delivered); plus long data followed by 8..600 inline executions of the same statement; 2..1000 chunks streamed round-robin to 2-3 parameters; 2000/12000/70000-byte buffers abandoned by CLOSE or emptied by EXECUTE followed by small long data; pairs of statement ids that agree in their low 8/16/24 bits or differ only in the top bit. Long scripted sessions: 130..4099 (thorough: up to 131101) ordinary commands of every kind on one connection in up to six mixes (even, prepare/close churn with growing ids, executions, long-data chunks, unanswered commands, text and library-answered commands) under several client/transport behaviours (pipelined, request ids advancing by 7, lock-step, 1..4093-byte reads, 7/11-byte writes), generated by a fixed rule, kept valid with the registry model and judged on the complete trace (callbacks with arguments, result, strict decode of every reply with its sequence ids). Oracle: the parameter is the in-order concatenation for that statement and parameter, the other parameters keep their inline values, delivery happens to exactly one execution and never to another statement.", alpha.len(), if quick {4} else {5}),
+        rule: format!("two prepared statements of 2 parameters; histories over {} actions: LONG_DATA(id 1|2, parameter 0|1|out of range, chunk \"\"|\"xy\"|\"z\"; 2000- and 12000-byte chunks), EXECUTE(bind LONG | VAR_STRING | MYSQL_TYPE_NULL | reuse; first parameter NULL), CLOSE, re-PREPARE; the client omits inline bytes for parameters with pending long data. Full tree to depth {} (thorough: depth 6 over the alphabet without the large chunks) plus BFS over model states (pending data capped at 4 bytes per parameter) with two witnesses; every interleaving of <= 7 (thorough: 9) actions over (chunk for parameter 0|1 of statement 1|2, EXECUTE 1|2) and of <= 6 (7) with CLOSE 1 / PREPARE 1 added; plus a chunk of 2*(2^24-1)+5 bytes; five chunks of 14 MiB for one parameter (70 MiB delivered); long data for parameters 15..17, 255..257, 511, 512, 999 of statements of 18..1000 parameters; plus long data followed by 8..600 inline executions of the same statement; 2..1000 chunks streamed round-robin to 2-3 parameters; 2000/12000/70000-byte buffers abandoned by CLOSE or emptied by EXECUTE followed by small long data; pairs of statement ids that agree in their low 8/16/24 bits or differ only in the top bit. Long scripted sessions: 130..4099 (thorough: up to 131101) ordinary commands of every kind on one connection in up to six mixes (even, prepare/close churn with growing ids, executions, long-data chunks, unanswered commands, text and library-answered commands) under several client/transport behaviours (pipelined, request ids advancing by 7, lock-step, 1..4093-byte reads, 7/11-byte writes), generated by a fixed rule, kept valid with the registry model and judged on the complete trace (callbacks with arguments, result, strict decode of every reply with its sequence ids). Oracle: the parameter is the in-order concatenation for that statement and parameter, the other parameters keep their inline values, delivery happens to exactly one execution and never to another statement.", alpha.len(), if quick {4} else {5}),
         assumptions: vec!["an empty chunk still marks the parameter as supplied by long data (MySQL semantics: the value is the empty string)".into()],
         bounds: json!({"tree_depth": if quick {4} else {5}, "core_tree_depth": if quick {0} else {6}, "alphabet": alpha.len()}),
         exhaustive: true,
         caps_hit: vec![],
         families,
-        required: vec!["soak_sessions", "execute_with_pending_long_data", "multi_packet_chunks", "many_large_chunks", "bfs_states", "long_histories"],
+        required: vec!["soak_sessions", "execute_with_pending_long_data", "multi_packet_chunks", "many_large_chunks", "wide_long_data", "bfs_states", "long_histories"],
     }
 }
